@@ -431,13 +431,11 @@ func TestVerif_C14_readers(t *testing.T) {
 				}
 			case "srcerr":
 				ok = strings.HasPrefix(gotTerm, "err")
-			case "zlib", "wrongfmt":
-				// RFC 9110 "deflate" is zlib-wrapped; deflate_reader.go expects a raw stream. Whatever
-				// the format confusion, the caller must get an error or the payload, not garbage + EOF
-				// (uncompressed bytes fed to a decoder are excluded: they may be a valid stream)
-				if !(st.kind == "wrongfmt" && bytes.Equal(st.wire, st.payload)) {
-					ok = strings.HasPrefix(gotTerm, "err") || gotData == verifh.Hex(string(st.payload))
-				}
+			case "zlib":
+				// RFC 9110 "deflate" is zlib-wrapped; deflate_reader.go expects a raw stream: the zlib
+				// header is not a valid raw-deflate block, so the caller gets an error, not garbage
+				// (a foreign format without magic bytes - "wrongfmt" - may be a valid stream by accident)
+				ok = strings.HasPrefix(gotTerm, "err") || gotData == verifh.Hex(string(st.payload))
 			case "flip":
 				if st.alg == "gzip" || st.alg == "zstd" { // formats with an integrity check
 					ok = strings.HasPrefix(gotTerm, "err") || gotData == verifh.Hex(string(st.payload))
